@@ -149,6 +149,22 @@ CHECKS["C13"] = dict(
    note="Trusted: Coq kernel; extraction; Z3 truthful. Two replacement-frontend defects repaired; one approximate-mode finding "
         "(interval intersection) is known.")
 
+CHECKS["C02"] = dict(
+   text="Machine-checked proof (Coq + Flocq): the model of each folded double-precision operation on Coq's primitive binary64 floats IS "
+        "Flocq's IEEE-754 operation for every pair of operands incl. signed zeros, subnormals, infinities and NaN (C02_add, _sub, _mul, "
+        "_div with the zero-divisor special-casing Python forces, _sqrt with the negative-argument case, _neg, _abs, _lt, _le, _eq, "
+        "_is_nan; C02_div_pinned_refuted: the unrepaired code was not, witness 0/0); and single precision computed in double precision "
+        "and rounded is the single-precision operation for every pair of single-precision reals (C02_float_add/sub/mul/div/sqrt, "
+        "Flocq's double-rounding theorems at binary32/binary64; the real-valued part only). Tie: the model is evaluated inside Coq "
+        "(vm_compute on primitive floats over a generated cases file) and compared bit for bit with claripy's eager folding. Search: "
+        "every operation x rounding mode x sort x operand pair from pools of special values/ties/boundaries -- the folded constant or, "
+        "where claripy does not fold, the solver's answer, and the same with the left operand symbolic and pinned by its bits -- against "
+        "an independently built Z3 term; conversions, there-and-back chains, fpToIEEEBV cancellation, integer<->float. Conversions, "
+        "non-RNE modes (no longer folded), the Z3 translation and the simplifier rules are NOT modelled (testing only).",
+   design="5/C02", technique="Coq/Flocq proof that the folded operations are IEEE-754; in-Coq evaluation as correspondence; differential search against Z3",
+   note="Trusted: Coq kernel; Coq.Floats.FloatAxioms and the real-number axioms of the standard library (named in the evidence); Flocq 4; "
+        "CPython float = binary64 RNE; Z3's FPA as reference of the search. Seven floating-point defects repaired.")
+
 CHECKS["C12"] = dict(
    text="Machine-checked proof (Coq) of the principle SolverComposite rests on, for every set of constraint groups: if the groups share no "
         "variable, the whole is satisfiable iff every group is (C12_sat, by gluing assignments), and the values an expression takes over "
